@@ -15,8 +15,10 @@ FILE = "vnacommon_lu.c"
 
 
 class Deg:
-    def __init__(self, f):
+    def __init__(self, f, P=None, depth=0):
         self.f = f
+        self.P = P
+        self.depth = depth
         self.memo = {}
         self.matrix_params = {p["decl"] for p in f.params if "_Complex double *" in p.get("ct", p["t"])}
         self.assigns = {}       # decl -> [rhs]
@@ -64,8 +66,22 @@ class Deg:
             if b.k == "DeclRefExpr":
                 if b.refdecl in self.matrix_params:
                     return 1
-                return self.join([self.deg(r, stack | {b.refdecl}) for r in self.elem_assigns.get(b.refdecl, [])]) \
-                    if b.refdecl not in stack else None
+                if b.refdecl in stack:
+                    return None
+                ds = [self.deg(r, stack | {b.refdecl}) for r in self.elem_assigns.get(b.refdecl, [])]
+                # elements filled by a helper the array is handed to (e.g. an extracted lu_init_rows(a, row_scale, ...))
+                if self.P is not None:
+                    for c in self.f.calls():
+                        g = self.P.resolve_call(c, self.f)
+                        if g is None or g.body is None or g.key() == self.f.key():
+                            continue
+                        for i, a_ in enumerate(c.args()):
+                            a_s = a_.strip()
+                            if a_s.k == "DeclRefExpr" and a_s.refdecl == b.refdecl and i < len(g.params):
+                                sub = Deg(g, self.P, self.depth + 1) if self.depth < 3 else None
+                                if sub is not None:
+                                    ds += [sub.deg(r) for r in sub.elem_assigns.get(g.params[i]["decl"], [])]
+                return self.join(ds)
             return None
         if k == "CallExpr":
             if e.callee in ("cabs", "fabs", "creal", "cimag", "conj"):
@@ -99,7 +115,7 @@ def run(P, tier="quick"):
     R = RuleResult("R34b", "in _vnacommon_lu the quantity compared to choose the pivot row has homogeneity degree 0 under "
                    "row scaling (|candidate| divided by the largest magnitude of its row)", floor=1)
     f = P.need_func("_vnacommon_lu", FILE)
-    D = Deg(f)
+    D = Deg(f, P)
     # the comparison that guards `best_index = i`
     target = None
     for n in f.walk():
